@@ -145,6 +145,42 @@ class Probes:
                 self.attached["P-trace"] = "failed: %r" % (e,)
         return self
 
+    def install_box_sanitizer(self):
+        """Box-nesting sanitizer on tracer.new_box (looked up as a module global at every call): the raw value
+        wrapped by a box of trace t is either free of boxes, or itself a box of a strictly smaller trace id
+        (an enclosing differentiation). An object-dtype array, or a container with boxes inside, as the value
+        of a box means a tracer reached raw NumPy. Violations are recorded in self.box_problems."""
+        common.setup_repo()
+        import autograd.tracer as tracer
+
+        if getattr(self, "_box_sanitizer", False):
+            return self
+        self._box_sanitizer = True
+        self.box_problems = []
+        self.boxes_checked = 0
+        P = self
+        orig_new_box = tracer.new_box
+
+        def new_box(value, trace, node):
+            P.boxes_checked += 1
+            try:
+                if tracer.isbox(value):
+                    if not value._trace < trace:
+                        P.box_problems.append(("box_nesting_order", "box of trace %r wraps a box of trace %r" % (trace, value._trace)))
+                elif isinstance(value, onp.ndarray):
+                    if value.dtype == object:
+                        P.box_problems.append(("object_array_in_box", "value of a new box is an object-dtype array %r" % (value.shape,)))
+                elif isinstance(value, (tuple, list, dict)):
+                    if common.find_boxes(value):
+                        P.box_problems.append(("boxes_inside_raw_container", "value of a new box is a raw %s holding boxes" % type(value).__name__))
+            except Exception:  # pragma: no cover - the sanitizer must never change behaviour
+                pass
+            return orig_new_box(value, trace, node)
+
+        tracer.new_box = new_box
+        self.attached["P-box"] = True
+        return self
+
     def reset(self):
         self.nodes.clear()
         self.passes.clear()
